@@ -55,8 +55,8 @@ EDIT_TARGETS = {"pheno_real": ("WGT", "V", "S1"), "mox2": ("WT", "VC", "KA"),
                 "pheno_advan3": ("WGT", "V", "S1"), "pheno_advan4": ("WGT", "V", "S1")}
 
 TIERS = {
-    "quick": dict(edges=260, walks=40, walk_len=5, rw_every=6, roundtrip=150),
-    "thorough": dict(edges=3000, walks=800, walk_len=6, rw_every=4, roundtrip=1500),
+    "quick": dict(edges=200, walks=40, walk_len=5, rw_every=6, roundtrip=150, row_depth=2),
+    "thorough": dict(edges=3000, walks=800, walk_len=6, rw_every=4, roundtrip=1500, row_depth=4),
 }
 _MODELS: dict = {}
 
@@ -585,6 +585,11 @@ def analyse(model, cid, seed, tag):
             obs = next((i for i, c in enumerate(cs["model"], 1) if c["defobs"]), None) or (names.index("CENTRAL") + 1 if "CENTRAL" in names else 1)
         code_scale = f"S{obs}" if f"S{obs}" in res["code_scales"] else ("SC" if "SC" in res["code_scales"] and cs["advan"] in G.CENTRAL else None)
         res["scale_consistent"] = res["model_f_scale"] == code_scale
+        import re as _re
+
+        pkvars = set()
+        _assigned_of(cs.get("pk") or [], pkvars)
+        res["stale_output_rate_name"] = cs["advan"] in G.CENTRAL and any(_re.fullmatch(r"K\d+T?0", x) for x in pkvars)
     except Exception:  # noqa: BLE001
         res["model_f_scale"], res["code_scales"], res["scale_consistent"] = None, [], None
     sides = []
@@ -728,7 +733,7 @@ def run_history(arg):
             m = m2
         res["from_advan"] = prev_advan
         a = analyse(m, idx, seed, "after")
-        res.update({k: a.get(k) for k in ("case", "skip", "model_side", "omega_case", "rvs", "advan", "trans", "notes", "code", "model_f_scale", "code_scales", "scale_consistent")})
+        res.update({k: a.get(k) for k in ("case", "skip", "model_side", "omega_case", "rvs", "advan", "trans", "notes", "code", "model_f_scale", "code_scales", "scale_consistent", "stale_output_rate_name")})
         res["violations"].extend(a["violations"])
         try:
             from . import c08_features as F8
@@ -768,7 +773,7 @@ def _key(vec):
     return json.dumps(vec, sort_keys=True)
 
 
-def plan_histories(states, rng, n_edges, n_walks, walk_len):
+def plan_histories(states, rng, n_edges, n_walks, walk_len, row_depth=2):
     """histories (token sequences per start model): sampled transitions reached through a breadth-first tree, and random walks"""
     table = {_key(s["state"]["vec"]): s for s in states}
     starts = {}
@@ -801,15 +806,25 @@ def plan_histories(states, rng, n_edges, n_walks, walk_len):
     for name, (path, edges) in per_start.items():
         short = [e for e in edges if len(path[e[0]]) <= 2]
         rng.shuffle(short)
-        # every token and every predicted ADVAN at least once
-        chosen, seen_tok = [], set()
+        # decision-table coverage first: every (ADVAN before, TRANS before, ADVAN after) the graph has within depth 3
+        # (these are the rows of pk_param_conversion / new_advan_trans), then every token with every predicted ADVAN
+        chosen, seen_tok, seen_row = [], set(), set()
+        deeper = [e for e in edges if len(path[e[0]]) <= row_depth]
+        rng.shuffle(deeper)
+        for e in sorted(deeper, key=lambda x: len(path[x[0]])):
+            a0, a1 = table[e[0]]["state"], table[e[2]]["state"]
+            row = (a0["advan"], a0["vec"]["trans"], a1["advan"])
+            if a0["advan"] != a1["advan"] and row not in seen_row:
+                seen_row.add(row)
+                chosen.append(e)
         for e in short:
             adv = table[e[2]]["state"]["advan"]
             if (e[1], adv) not in seen_tok:
                 seen_tok.add((e[1], adv))
-                chosen.append(e)
+                if e not in chosen:
+                    chosen.append(e)
         rest = [e for e in short if e not in chosen]
-        chosen = (chosen + rest)[:quota]
+        chosen = (chosen + rest)[:max(quota, len(chosen))]
         for k, tok, k2 in chosen:
             hists.append((name, path[k] + [tok]))
         for _ in range(max(1, n_walks // len(starts))):
@@ -1077,7 +1092,7 @@ def _record(r, outcome, detail, table_states=None):
     return {"start": r["start"], "history": r.get("hist"), "last": (r.get("hist") or [None])[-1], "outcome": outcome,
             "advan": r.get("advan"), "trans": r.get("trans"), "from_advan": r.get("from_advan"), "detail": detail,
             "vec": r.get("vec"), "missing": r.get("missing"), "model_f_scale": r.get("model_f_scale"),
-            "scale_consistent": r.get("scale_consistent"), "bio_class": r.get("bio_class"), "lag_class": r.get("lag_class"),
+            "scale_consistent": r.get("scale_consistent"), "stale_output_rate_name": r.get("stale_output_rate_name"), "bio_class": r.get("bio_class"), "lag_class": r.get("lag_class"),
             "dose_code": r.get("dose_code"), "dose_model": r.get("dose_model"),
             "code_scales": "+".join(r.get("code_scales") or []), "code": r.get("code")}
 
@@ -1096,7 +1111,7 @@ def main(tier: str, seed: int) -> int:
     t0 = time.time()
     frontend_roundtrip(cfg["roundtrip"], seed, v)
     states = tlc_graph(v)
-    hists, table, starts = plan_histories(states, rng, cfg["edges"], cfg["walks"], cfg["walk_len"])
+    hists, table, starts = plan_histories(states, rng, cfg["edges"], cfg["walks"], cfg["walk_len"], cfg.get("row_depth", 2))
     _load()
     work = []
     for i, (name, h) in enumerate(hists, start=1):
